@@ -25,6 +25,18 @@ Theorem C18_redirect_registered :
 Proof. exact redirect_registered. Qed.
 Print Assumptions C18_redirect_registered.
 
+(* l_auth_globs c = the client's RedirectURIGlobs() (globs for the authorization redirect_uri).
+   Replace them by anything, for every client: each answer of the end-session endpoint stays the
+   same - a post_logout_redirect_uri is judged by l_post and the POST-LOGOUT globs alone. *)
+Theorem C18_auth_globs_irrelevant :
+  forall (pmatch : string -> string -> pres) (uparse : string -> option purl)
+         (default_uri : string) (ts : tsfr) (cs : list lclient) (f : lclient -> list string)
+         (r : router) (q : esreq),
+    end_session pmatch uparse default_uri ts (map (fun c => with_auth_globs (f c) c) cs) r q =
+    end_session pmatch uparse default_uri ts cs r q.
+Proof. exact auth_globs_irrelevant. Qed.
+Print Assumptions C18_auth_globs_irrelevant.
+
 (* A hint that does not verify (bad signature, foreign issuer, ...) is rejected; a
    client_id contradicting the hint's azp is rejected; expiry of an otherwise valid
    hint changes nothing. *)
